@@ -23,7 +23,7 @@ func VH_C11_CabDigest() {
 	}
 	vhMaxLen(n + 2)
 	b := vhBytes("cab", n)
-	vhAllocLimit(1<<16 + 16*len(b))
+	vhAllocLimit(4<<20 + 16*len(b))
 	vhLoopBound(len(b) + 16)
 	d, err := Digest(bytes.NewReader(b), crypto.SHA256)
 	if err == nil {
